@@ -96,6 +96,7 @@ UNIT_FALLBACK = {
     "noexts": [],
     "maxpath": [],
     "gfalinks": [],
+    "kmersfrom": [("verif::kmers::kmer5::k_kmers_from", "kmers_from_bytes/ascii on exactly K+3 bases")],
     "hashn": [("dna_string::verif::d_hashn_concrete", "from_acgt_bytes_hashn on eight concrete 8-byte reads")],
     "jsonlinks": [],
     "prune": [("filter::verif::f_remove_censored_3", "remove_censored_exts on 3 Kmer4 entries"), ("filter::verif::f_remove_censored_sharded", "remove_censored_exts_sharded, 2 entries + 3 all_kmers")],
@@ -143,11 +144,11 @@ PROPS["C13"] = {
     "title": "K-mer extraction agrees across all containers",
     "kani": lambda tier: kfam(["k_from_bytes", "k_from_ascii", "k_set_slice_mut", "k_extend_right", "k_empty", "k_len"], tier)
         + lmer(["l_from_slice"], tier, LMER_KS_ALL if tier == "thorough" else LMER_KS_QUICK),
-    "verus": [("dnastring", r"^DnaString::(get_kmer|addr|get|get_by_addr)$"), ("dnaslice", r"^DnaStringSlice::(get_kmer|get|rc)$"), ("kmeriter", None), ("containers", None)],
+    "verus": [("kmersfrom", r"^(kfb_fill_step|kfb_slide_step|kfa_fill_step|kfa_slide_step|base_to_bits|lemma_slide_is_next_window|lemma_fill_prefix)$"), ("dnastring", r"^DnaString::(get_kmer|addr|get|get_by_addr)$"), ("dnaslice", r"^DnaStringSlice::(get_kmer|get|rc)$"), ("kmeriter", None), ("containers", None)],
     "bounded": lambda tier: [("verif::kmers::%s::k_kmers_from" % t, "kmers_from_bytes/ascii on exactly K+3 bases") for t in (["kmer32", "kmer20", "kmer5"] if tier == "quick" else ALL_TYPES)]
         + ([(h, b) for h, b in _DNA_FALLBACK if "get_kmer" in h] if tier == "thorough" else []),
     "design_ref": "DESIGN.md §6 C13",
-    "undecided": ["Kmer::kmers_from_bytes / kmers_from_ascii (iterator adapters take/skip/enumerate): fixed-length bounded stand-in only",
+    "undecided": ["Kmer::kmers_from_bytes / kmers_from_ascii as wholes (their loop headers use the iterator adapters take / skip / enumerate): the BODIES of their loops are under contract (unit kmersfrom, rule R15: fill position i from byte i; slide by the next byte and record) together with the lemmas that folding these steps over a sequence yields exactly its windows in order; that the headers feed bytes 0..K resp. K.. in order is std's iterator semantics (assumed), cross-checked by the fixed-length bounded stand-ins",
                   "iterator totals (exactly max(0,n-K+1) items) follow from the per-call next() contracts by induction over calls; the induction is a meta-argument, each step is a discharged obligation"],
     "trust": VERUS_TRUST + [SEAM_NOTE],
     "level_text": "get_kmer of the growable string, of forward and reverse-complemented slices at every offset, and of Lmer for each capacity is proved equal to the k-mer built from bases i..i+K (Verus unbounded with loop invariants across 32-base block boundaries; Kani complete per capacity); KmerIter/KmerExtsIter::next and the Vmer first/last/term accessors are proved against the window spec for any container and k-mer type satisfying the trait contract, incl. that boundary extensions are used only at the two ends.",
